@@ -100,6 +100,7 @@ type GenesisOptions struct {
 	NoRewards           bool     // no staking rewards (stake changes only through transactions and slashing)
 	MaxPerEntity        int      // scheduler MaxValidatorsPerEntity (default 1)
 	ExtraNodes          bool     // entity 1 also owns node 3 (a second validator node) at genesis
+	Upgrader            bool     // replicas run with a node-local upgrade backend (the real manager)
 	NodeExpiration      uint64   // expiration epoch of genesis nodes (default 4)
 	NodeExpirations     []uint64 // per-node override of the expiration epoch
 	ZeroThresholds      bool     // all stake thresholds zero (tiny stakes can be elected)
